@@ -3,7 +3,7 @@
    Spec/JoinSpec.v, the join map as a C04 map (in range, non-decreasing), and the row-by-row
    reading of a left merge on a unique right key. *)
 From Coq Require Import ZArith List Lia Bool ZifyBool.
-From EV Require Import Res Arr JoinSpec JoinBase MapStream MapStreamSpec MapHelpers SessionMergeSpec.
+From EV Require Import Res Arr JoinSpec JoinBase MapStream MapStreamSpec MapStreamBase MapHelpers SessionMergeSpec.
 Import ListNotations.
 Open Scope Z_scope.
 
